@@ -7,6 +7,7 @@ require (
 	k8s.io/apimachinery v0.0.0-20241206181643-8c60292e48e4
 	k8s.io/klog/v2 v2.130.1
 	k8s.io/pod-security-admission v0.0.0
+	sigs.k8s.io/yaml v1.4.0
 )
 
 require (
@@ -37,6 +38,7 @@ require (
 	github.com/prometheus/client_model v0.6.1 // indirect
 	github.com/prometheus/common v0.55.0 // indirect
 	github.com/prometheus/procfs v0.15.1 // indirect
+	github.com/spf13/cobra v1.8.1 // indirect
 	github.com/spf13/pflag v1.0.5 // indirect
 	github.com/x448/float16 v0.8.4 // indirect
 	go.opentelemetry.io/otel v1.28.0 // indirect
@@ -57,7 +59,6 @@ require (
 	k8s.io/utils v0.0.0-20241104100929-3ea5e8cea738 // indirect
 	sigs.k8s.io/json v0.0.0-20241010143419-9aa6b5e7a4b3 // indirect
 	sigs.k8s.io/structured-merge-diff/v4 v4.4.2 // indirect
-	sigs.k8s.io/yaml v1.4.0 // indirect
 )
 
 replace k8s.io/pod-security-admission => /repo
